@@ -30,6 +30,12 @@ def _entry(pid, text, oracle, n_quick=600, n_thorough=40000, offset=0, expected=
     }
 
 
+def _procs(pid, offset, n_quick=4000):
+    """protocol-level fuzz of the stored procedures (worlds/batch/procs.py) as an extra scenario of `pid`."""
+    return {'module': 'worlds.batch.procs', 'quick': n_quick, 'thorough': 50 * n_quick, 'seed_offset': offset,
+            'params': {'props': [pid]}, 'wall_cap': {'quick': 400.0, 'thorough': 3000.0}}
+
+
 def _fe_entry(pid, module, text, oracle, n_quick, n_thorough, expected=(), scenarios=None):
     return {
         'level': 'exploration',
@@ -75,7 +81,7 @@ CHECKS = {
                      'and the blob store unchanged with no committed transaction. Samples histories; not a proof.',
                      'route-table enumeration x caller matrix inside a running service history; response oracle on every '
                      'server-side answer, whole-database digest + commit count around each gated intruder request',
-                     4000, 200000, expected=['forbidden_refused', 'permitted_ok', 'cookie_auth', 'ui_login_redirect',
+                     6000, 300000, expected=['forbidden_refused', 'permitted_ok', 'cookie_auth', 'ui_login_redirect',
                                              'concurrent_intruder', 'membership_changed', 'target:open_update',
                                              'target:running', 'target:cancelled', 'target:complete', 'target:deleted']),
     'C01': _entry('C01', 'After every committed transaction of seeded service histories the scheduler counters '
@@ -90,17 +96,27 @@ CHECKS = {
                   expected=['billing_update_with_attempts']),
     'C03': _entry('C03', 'Every change of an attempts row (from the transaction journal, so intermediate statements '
                          'inside procedures are seen) is checked against the monotonicity and bound rules.',
-                  'transition monitor over every attempts-row change', offset=200_000),
+                  'transition monitor over every attempts-row change', offset=200_000,
+                  extra_scenarios=[_procs('C03', 2_300_000)]),
     'C04': _entry('C04', 'Every job state change is checked against the lifecycle relation; completion tallies are '
                          'recounted after every commit, under duplicated / late / stale worker reports.',
                   'transition monitor + tally recount', offset=300_000,
-                  expected=['job_Running_to_Success']),
+                  expected=['job_Running_to_Success', 'dup_message', 'stale_report', 'complete_after_unschedule',
+                            'unschedule_after_complete', 'started_after_complete', 'double_placement'],
+                  extra_scenarios=[_procs('C04', 2_400_000)]),
     'C05': _entry('C05', 'Whenever a job becomes Ready all its parents are terminal at that commit; children of '
                          'failed parents are marked cancelled and never start unless always-run.',
                   'dependency monitor at every commit', offset=400_000),
     'C06': _entry('C06', 'After every commit batch / job-group state, n_jobs and tallies equal the recount over '
-                         'committed jobs of the subtree.',
-                  'completion recount after every commit', offset=500_000),
+                         'committed jobs of the subtree; what the API reports for a batch / job group (polled by a '
+                         'reader throughout the run, and exhaustively at quiescence) agrees with the recount; job '
+                         'groups created over several requests hang beneath the parents their specs named.',
+                  'completion recount after every commit + reported-status oracle + group-tree agreement',
+                  offset=500_000, expected=['status_reported_complete', 'status_reported_incomplete',
+                                            'group_parent_checked'],
+                  extra_scenarios=[{'module': 'worlds.batch.cancelscope', 'quick': 1500, 'thorough': 120000,
+                                    'seed_offset': 550_000, 'params': {'props': ['C06']},
+                                    'wall_cap': {'quick': 400.0, 'thorough': 3000.0}}]),
     'C07': _entry('C07', 'After a cancellation commits no cancellable job of the subtree starts, nothing can be added '
                          'beneath it, re-cancelling inserts nothing, and every stored-procedure call made by the driver '
                          'under any combination of cancelled groups returns normally.',
@@ -110,12 +126,15 @@ CHECKS = {
                                     'seed_offset': 650_000, 'wall_cap': {'quick': 400.0, 'thorough': 3000.0}}]),
     'C10': _entry('C10', 'After every commit touching attempts or instances, free cores of each live instance equal '
                          'total minus cores of its un-ended attempts; inactive instances are entirely free.',
-                  'free-core recount after every commit', offset=700_000),
+                  'free-core recount after every commit', offset=700_000,
+                  expected=['deactivate_with_open_attempts', 'double_placement'],
+                  extra_scenarios=[_procs('C10', 2_500_000)]),
     'C39': _entry('C39', 'Bounded liveness: once faults stop every committed job is terminal within 900 simulated '
                          'seconds and cancelled batches complete; safety: a job is only completed by its current '
                          'attempt and a Creating/Running job always has one.',
                   'bounded liveness after heal + current-attempt monitor', offset=800_000,
-                  expected=['job_Running_to_Ready']),
+                  expected=['job_Running_to_Ready'],
+                  extra_scenarios=[_procs('C39', 2_600_000, n_quick=2000)]),
     'C41': _entry('C41', 'Jobs of uncommitted updates never get attempts, never enter Creating/Running/terminal '
                          'states and never contribute to counters or tallies (recount over committed jobs).',
                   'uncommitted-update monitors + recount', offset=900_000),
